@@ -1,7 +1,7 @@
 SPECIFICATION Spec
 CONSTANTS
   Chunks = 2
-  MaxVer = 3
+  MaxVer = 4
   Deviation = "none"
 INVARIANTS TypeOK Inv_FileIsCompleteSnapshot Inv_LoadsWithoutError Inv_RefuseUnsafePath
 PROPERTIES Act_ReloadEqualsLastSave
